@@ -1002,6 +1002,10 @@ impl ConnectBuilder {
 
         if let Some(ref will_props) = self.will_props {
             validate_will_properties(will_props)?;
+            // Will properties are only serialised together with a will message
+            if !will_flag && !will_props.is_empty() {
+                return Err(MqttError::MalformedPacket);
+            }
         }
 
         Ok(())
